@@ -51,6 +51,7 @@ class Ctx:
         self.inlined = {}
         for crate, prog in (("lib", self.lib), ("bin", self.bin)):
             if not facts[crate].get("_inlined_done"):
+                facts[crate]["_consts_read_through"] = inline.inline_new_literal_consts(prog, ref.get(crate, {}).get("fns"))
                 facts[crate]["_debug_asserts_stripped"] = inline.strip_debug_assertions(prog)
                 facts[crate]["_inlined"] = inline.inline_new_functions(prog)
                 facts[crate]["_inlined_away"] = sorted(prog.inlined_away)
@@ -109,7 +110,8 @@ DEPENDS = {
             ("c06", ["C06.R1", "C06.R2", "C06.R3"], "a region may be deleted only if its element is ready: marker / skip decision"),
             ("c09", ["C09.R1", "C09.R3"], "readiness is read from attributes: the tag grammar"),
             ("c08", ["C08."], "deleted extents are token boundaries: tag recognition"),
-            ("c10", ["C10."], "deleted extents are pairs of tags: pairing")],
+            ("c10", ["C10."], "deleted extents are pairs of tags: pairing"),
+            ("c11", ["C11.R1", "C11.R2", "C11.R4"], "the removable extent of an unwrapped element is its four wrapper lines, not more")],
     "C03": [("c05", ["C05.R1", "C05.R2", "C05.R3"], "a ready element must be recognised as ready: the expiry decision"),
             ("c06", ["C06.R1", "C06.R2", "C06.R3"], "a ready element must be recognised as ready: marker / skip decision"),
             ("c09", ["C09.R1", "C09.R3"], "readiness is read from attributes: the tag grammar"),
@@ -122,6 +124,7 @@ DEPENDS = {
             ("c02", ["C02.R1"], "nothing but the deletion of ranges touches the text"),
             ("c08", ["C08."], "unterminated tags are text: tag recognition"),
             ("c10", ["C10."], "unclosed elements are not elements: pairing"),
+            ("c11", ["C11.R2"], "an unwrap-block that cannot be unwrapped is left alone: the applicability table"),
             ("c20", ["C20.R4", "C20.R5", "C20.R6"], "at the command line: the result is written unmodified, and the input is read before the output is created")],
     "C06": [("c20", ["C20.R2"], "the target set given on the command line reaches the library as given"),
             ("c09", ["C09.R1"], "the `name` value the decision reads is the one the tag grammar delivers")],
@@ -130,10 +133,13 @@ DEPENDS = {
             ("c05", ["C05.R2"], "a quoted value is opaque to the removal decision: the `to` value is used as a whole"),
             ("c10", ["C10.R5"], "a well-formed tag is parsed whatever its quoted values contain (e.g. the start delimiter)"),
             ("c03", ["C03.R4"], "a quoted value is opaque to the removal decision: the strategy is chosen by attribute *names*")],
-    "C11": [("c12", ["C12.R1"], "nothing else is removed: the dedent consumes only blanks in front of the first non-blank")],
+    "C11": [("c12", ["C12.R1"], "nothing else is removed: the dedent consumes only blanks in front of the first non-blank"),
+            ("c13", ["C13.R7"], "the wrapper lines are found: a non-pausing scan passes everything but a line break and reports that one")],
+    "C12": [("c13", ["C13.R7"], "the indentation is measured up to the first non-blank: the scanners pass blanks and report what follows them")],
     "C13": [("c02", ["C02.R4"], "whole lines are deleted and nothing else: the byte tables of the line scanners"),
             ("c14", ["C14.R8"], "the seam formatters are asked about the seams: removed positions are shifted by what was removed before")],
-    "C14": [("c12", ["C12.R4", "C12.R5"], "whitespace changes stay at the borders: head/tail pair indices and sorted block ranges"),
+    "C14": [("c02", ["C02.R2", "C02.R3", "C02.R8", "C02.R9"], "no retained character is deleted: the markers are disjoint (children absorbed, halves kept apart) and applied back to front"),
+            ("c12", ["C12.R4", "C12.R5"], "whitespace changes stay at the borders: head/tail pair indices and sorted block ranges"),
             ("c04", ["C04.R2"], "whitespace changes stay at the borders: formatter ranges exist only at removed positions")],
     "C15": [("c17", ["C17.R1b"], "the Ready items are the same in the plain and in the full listing: the ready list does not depend on the pending flag"),
             ("c16", ["C16.R5"], "highlighted text equal to the text of the region: nothing rewrites or trims the listed text"),
